@@ -19,7 +19,7 @@ from vlib import harness, inputs
 READERS = ["map", "consensus", "topology"]
 
 
-def build_trace(seed, n_chains, clustered, tmp, iters=6, n_mut=None, particles=4):
+def build_trace(seed, n_chains, clustered, tmp, iters=6, n_mut=None, particles=4, completion_order=None, info=None):
     """A trace written by the real writer (create_main_run_output) from real chain runs."""
     import phyclone.run as prun
     from phyclone.data.pyclone import load_data
@@ -34,6 +34,8 @@ def build_trace(seed, n_chains, clustered, tmp, iters=6, n_mut=None, particles=4
         crow, _ = inputs.make_clusters(rng, rows, 3)
         cluster_file = os.path.join(tmp, "cl_%d.tsv" % n_chains)
         inputs.write_table(crow, cluster_file)
+        if info is not None:
+            info["cluster_rows"] = crow
     import contextlib as _c
     import io as _io
 
@@ -51,6 +53,9 @@ def build_trace(seed, n_chains, clustered, tmp, iters=6, n_mut=None, particles=4
             results[ch] = prun.run_phyclone_chain(1, True, 1.0, data, float("inf"), iters, particles, 1, 1, 0.1, 1000,
                                                   "semi-adapted", 0.5, g, smp, 1, ch, 0.2)
     out = os.path.join(tmp, "trace_%d_%d_%d.pkl.gz" % (n_chains, clustered, iters))
+    if completion_order is not None:
+        # the run command inserts chain results in the order the chains complete
+        results = {ch: results[ch] for ch in completion_order}
     create_main_run_output(cluster_file, out, results)
     return out
 
